@@ -330,6 +330,7 @@ def w2_build_overlap(col, rng, cidx, jobref):
 
     shared_sp = sched.gen_shape(rng, nmin=2, nmax=5, mc_max=2)
     shared_sp["name"] = "shared"
+    shared_sp["is_async"] = rng.random() < 0.35  # the shared DAG may be an AsyncDAG awaited in thread B's own event loop
     shared_setup = {}
     if rng.random() < 0.5:
         # the shared DAG has a setup node whose result is already there ("after its setup nodes have run")
@@ -343,7 +344,10 @@ def w2_build_overlap(col, rng, cidx, jobref):
     shared_plain = {name: probes.mkprobe(name, shape=tuple(fs["shape"]) if fs.get("shape") else None) for name, fs in shared_sp["fns"].items()}
     shared, _e, _sp = S.build_tawazi(shared_sp, plain=shared_plain)
     if shared_setup:
-        shared.setup()
+        if shared_sp["is_async"]:
+            asyncio.run(shared.setup())
+        else:
+            shared.setup()
         ids_sh = S.node_ids(shared_sp)
         shared_setup = {i: shared.results[ids_sh[i]] for i in shared_setup}
         col.counters["c16_shared_dag_with_setup_node"] += 1
@@ -391,7 +395,8 @@ def w2_build_overlap(col, rng, cidx, jobref):
     def thread_b():
         ev_in.wait(20)
         B.Settings.controlled = False
-        out["B_call"] = run_op_id("call_shared_while_other_thread_builds", lambda: shared(*args), "b%d" % cidx)
+        call_shared = (lambda: asyncio.run(_await(shared, args))) if shared_sp["is_async"] else (lambda: shared(*args))
+        out["B_call"] = run_op_id("call_shared_while_other_thread_builds", call_shared, "b%d" % cidx)
         cfg.TAWAZI_EXECNODE_OUTSIDE_DAG_BEHAVIOR = behaviour
         try:
             with warnings.catch_warnings(record=True) as wl:
@@ -796,6 +801,14 @@ def a17_case(col, rng, cidx, jobref):
     plain4 = {name: mk_live(name) for name in sp4["fns"]}
     d4, _e, _p = S.build_tawazi(sp4, plain=plain4)
     if isinstance(d4, AsyncDAG) and any(f["resource"] == "async-thread" for f in sp4["fns"].values()):
+        if rng.random() < 0.4:
+            # a configuration reload that only names priorities must leave the resources (hence the loop's freedom) alone
+            ids4 = S.node_ids(sp4)
+            uses4 = Counter(nd["fn"] for nd in sp4["nodes"])
+            named = {ids4[i]: {"priority": rng.randint(0, 5)} for i, nd in enumerate(sp4["nodes"]) if uses4[nd["fn"]] == 1 and rng.random() < 0.7}
+            if named:
+                d4.config_from_dict({"nodes": named})
+                col.counters["c17_liveness_cases_after_config_reload"] += 1
         B.reset_log()
         B.Settings.controlled = False
         B.Settings.stress_sleep = 0.0
